@@ -390,6 +390,46 @@ func bigGrid(r *vproto.Rng, n int) {
 	}
 }
 
+// latticeEdges: `pt big-lattice` / `big-latnear` lines — an edge a → a + m·(u,v) with m not a power of two (3, 5, 6, 7, 9 …)
+// and the lattice points a + j·(u,v), 0 < j < m, ON it (the slopes (j·v)/(j·u) and (m·v)/(m·u) are equal rationals whose
+// numerators and denominators differ by a non-dyadic factor: any rewriting of the slope comparison that rounds
+// differently on the two sides — reciprocal, cross products at the wrong scale — loses the equality), and their
+// half-unit neighbours. Integer coordinates below 2^10: inside the domain where the float code is proved exact.
+func latticeEdges(r *vproto.Rng, n int) {
+	ms := []int{3, 5, 6, 7, 9, 10, 11, 12, 13}
+	for i := 0; i < n; i++ {
+		m := ms[r.Intn(len(ms))]
+		u, v := r.Range(-12, 12), r.Range(-12, 12)
+		if u == 0 && v == 0 {
+			u = 1
+		}
+		a := pt(float64(r.Range(-512, 512)), float64(r.Range(-512, 512)))
+		b := pt(a.X+float64(m*u), a.Y+float64(m*v))
+		c := pt(float64(r.Range(-700, 700)), float64(r.Range(-700, 700)))
+		rg := ring{a, b, c}
+		if r.Chance(0.4) {
+			rg = append(rg, pt(float64(r.Range(-700, 700)), float64(r.Range(-700, 700))))
+		}
+		k := r.Intn(len(rg)) // the lattice edge at any position, the closing segment included
+		rg = append(append(ring{}, rg[k:]...), rg[:k]...)
+		if r.Bool() {
+			rg = reversed(rg)
+		}
+		var pg geom.Geom = poly(rg)
+		if r.Chance(0.3) {
+			pg = poly(closed(rg))
+		}
+		for j := 1; j < m; j++ {
+			q := pt(a.X+float64(j*u), a.Y+float64(j*v))
+			emitPt("big-lattice", q, pg)
+			if j%2 == 1 {
+				emitPt("big-latnear", pt(q.X+0.5, q.Y), pg)
+				emitPt("big-latnear", pt(q.X, q.Y-0.5), pg)
+			}
+		}
+	}
+}
+
 func distSeg(p, a, b geom.Point) float64 {
 	vx, vy := b.X-a.X, b.Y-a.Y
 	wx, wy := p.X-a.X, p.Y-a.Y
@@ -985,6 +1025,7 @@ func gen(seed uint64, tier string) {
 		exhaustiveOpen("trihalf6", 3, 6, 2)
 		sampled(r, 20000)
 		bigGrid(r, 1500)
+		latticeEdges(vproto.NewRng(seed+79), 1500)
 		floatCases(r, 150000, nil)
 		scaledShapes(r, 6000)
 		floatCases(r, 30000, floatScales)
@@ -998,6 +1039,7 @@ func gen(seed uint64, tier string) {
 		exhaustiveOpen("trihalf", 3, 4, 2)
 		sampled(r, 4000)
 		bigGrid(r, 300)
+		latticeEdges(vproto.NewRng(seed+79), 150)
 		floatCases(r, 20000, nil)
 		scaledShapes(r, 1200)
 		floatCases(r, 5000, floatScales)
